@@ -999,7 +999,11 @@ pub struct RepSpec {
     pub cycles: u8,
     pub form: u8,
 }
+thread_local! { static REPLAY_START: std::cell::RefCell<Option<(String, Pos)>> = std::cell::RefCell::new(None); }
 fn rep_text(r: &RepSpec) -> Option<(String, Pos)> {
+    if let Some(x) = REPLAY_START.with(|s| s.borrow().clone()) {
+        return Some(x);
+    }
     let (start, mut moves) = play_walk(&r.walk)?;
     let mut p = start.clone();
     for m in &moves {
@@ -1043,6 +1047,8 @@ pub struct C16Case {
     pub prefix: Vec<PrefixCmd>,
     pub probe: RepSpec,
     pub slice: u16,
+    /// false: the probe follows the earlier traffic immediately (no quiescing pause)
+    pub settle: bool,
     /// 0: probe differs from the prefix positions; 1: the probe position line also occurs in the prefix
     pub probe_in_prefix: bool,
 }
@@ -1108,14 +1114,15 @@ pub fn c16_case(c: &C16Case, st: &mut Stats) -> CaseResult {
     match c16_case_once(c, st) {
         Ok(()) => Ok(()),
         Err(first) => {
-            let mut scratch = Stats::new();
-            match c16_case_once(c, &mut scratch) {
-                Ok(()) => {
-                    st.label("mismatch_not_reproduced_on_second_attempt");
-                    Ok(())
+            // one more complete attempt (two more when the session was not quiesced)
+            for _ in 0..(if c.settle { 1 } else { 2 }) {
+                let mut scratch = Stats::new();
+                if c16_case_once(c, &mut scratch).is_ok() {
+                    st.label("mismatch_not_reproduced_on_a_further_attempt");
+                    return Ok(());
                 }
-                Err(_) => Err(first),
             }
+            Err(first)
         }
     }
 }
@@ -1172,9 +1179,15 @@ fn c16_case_once(c: &C16Case, st: &mut Stats) -> CaseResult {
         }
     }
     e.isready(Duration::from_secs(5))?;
-    e.settle(60);
+    if c.settle {
+        e.settle(60);
+    } else {
+        st.label("probe_follows_traffic_without_pause");
+    }
     let s1 = run_probe(&mut e, &ptext, &p, slice).map_err(|m| format!("after {} commands of other traffic: {} [{}]", texts.len(), m, ptext))?;
-    e.settle(40);
+    if c.settle {
+        e.settle(40);
+    }
     let s2 = run_probe(&mut e, &ptext, &p, slice).map_err(|m| format!("repeated probe: {} [{}]", m, ptext))?;
     let session: Vec<String> = texts.iter().map(|x| x.0.clone()).collect();
     for (name, s) in [("after the earlier traffic", &s1), ("repeated", &s2)] {
@@ -1216,7 +1229,7 @@ fn c16_json(c: &C16Case) -> Value {
             texts.insert(at + 1, "go".into());
         }
     }
-    json!({"prefix": texts, "probe": probe, "slice": 40 + c.slice % 80})
+    json!({"prefix": texts, "probe": probe, "slice": 40 + c.slice % 80, "settle": c.settle})
 }
 pub fn run_c16(ctx: &mut Ctx) {
     let t = ctx.tier;
@@ -1226,7 +1239,7 @@ pub fn run_c16(ctx: &mut Ctx) {
     run_prop(
         ctx,
         "probe_after_arbitrary_traffic_vs_fresh_engine",
-        || (proptest::collection::vec(prefix_cmd_strategy(), 0..25), rep_spec_strategy(), any::<u16>(), prop_oneof![2 => Just(false), 1 => Just(true)]).prop_map(|(prefix, probe, slice, probe_in_prefix)| C16Case { prefix, probe, slice, probe_in_prefix }),
+        || (proptest::collection::vec(prefix_cmd_strategy(), 0..25), rep_spec_strategy(), any::<u16>(), prop_oneof![2 => Just(false), 1 => Just(true)], prop_oneof![2 => Just(true), 1 => Just(false)]).prop_map(|(prefix, probe, slice, probe_in_prefix, settle)| C16Case { prefix, probe, slice, probe_in_prefix, settle }),
         t.pick(440, 4_000),
         |c, st| {
             st.sample(|| c16_json(c));
@@ -1236,10 +1249,117 @@ pub fn run_c16(ctx: &mut Ctx) {
     );
     ctx.workers = saved;
 }
+/// Game continuation: the normal flow of a game. The engine searches position P with a real slice;
+/// the game then continues with the engine's move and the reply it expected (second move of its last
+/// pv, when legal), and the GUI sends `position P moves b r` + go. The reply to that probe must be
+/// that of a fresh engine: nothing learnt or left over from the previous search may show.
+#[derive(Debug, Clone)]
+pub struct ContinuationCase {
+    pub pos: RepSpec,
+    pub slice: u16,
+    pub plies: u8,
+}
+fn continuation_once(c: &ContinuationCase, st: &mut Stats) -> CaseResult {
+    let Some((mut ptext, mut p)) = rep_text(&c.pos) else { return Ok(()) };
+    if p.legal_moves().is_empty() {
+        return Ok(());
+    }
+    let mut e = Engine::spawn()?;
+    e.handshake()?;
+    for round in 0..(1 + c.plies % 3) {
+        if p.legal_moves().is_empty() {
+            break;
+        }
+        let white = p.stm == Color::White;
+        let clock = 100 + (30 + (c.slice % 60) as u64) * 30 * 10 / 8 + 1;
+        let go = if white { format!("go wtime {} btime 3000", clock) } else { format!("go btime {} wtime 3000", clock) };
+        e.send(&ptext);
+        let a = do_go(&mut e, &go, plan_ms(&go, white))?;
+        let Ok(b) = check_bestmove(&a.bestmove.clone().unwrap_or_default(), &p) else { return Ok(()) }; // C03's subject
+        let after = p.apply(&b);
+        // the expected reply: second move of the last pv whose first move is the move played
+        let expected = a.infos.iter().rev().filter_map(|l| parse_info(l).ok()).find(|i| i.pv.len() >= 2 && parse_mv(&i.pv[0]).map(|m| m.from == b.from && m.to == b.to).unwrap_or(false)).and_then(|i| parse_mv(&i.pv[1]));
+        let legal = after.legal_moves();
+        let reply = expected.and_then(|x| legal.iter().find(|l| l.from == x.from && l.to == x.to).cloned()).or_else(|| legal.first().cloned());
+        let Some(r) = reply else { break };
+        if expected.map(|x| x.from == r.from && x.to == r.to).unwrap_or(false) {
+            st.label("game_followed_the_expected_reply");
+        }
+        let next = after.apply(&r);
+        let sep = if ptext.contains(" moves ") { " " } else { " moves " };
+        ptext = format!("{}{}{} {}", ptext, sep, mv_name(&b), mv_name(&r));
+        p = next;
+        if p.legal_moves().is_empty() {
+            break;
+        }
+        st.eval();
+        // the probe in this session vs a fresh engine
+        let slice = 40 + c.slice % 80;
+        let s1 = run_probe(&mut e, &ptext, &p, slice)?;
+        let mut fresh = Engine::spawn()?;
+        fresh.handshake()?;
+        let f = run_probe(&mut fresh, &ptext, &p, slice)?;
+        fresh.send("quit");
+        if s1.zero != f.zero {
+            return Err(format!("after the engine searched the earlier positions of this game, its zero-allowance reply to `{}` + go is {:?} but a fresh engine answers {:?} (round {})", ptext, s1.zero, f.zero, round + 1));
+        }
+        if let Some(i) = common_prefix_equal(&s1.timed, &f.timed) {
+            return Err(format!("after the engine searched the earlier positions of this game, its timed search of `{}` reports improvement #{} as {:?} but a fresh engine reports {:?}", ptext, i, s1.timed[i], f.timed[i]));
+        }
+        st.nontrivial(fp(&(&ptext, round)));
+        e.settle(30);
+    }
+    e.send("quit");
+    Ok(())
+}
+pub fn continuation_case(c: &ContinuationCase, st: &mut Stats) -> CaseResult {
+    match continuation_once(c, st) {
+        Ok(()) => Ok(()),
+        Err(first) => {
+            if continuation_once(c, &mut Stats::new()).is_ok() {
+                st.label("mismatch_not_reproduced_on_a_further_attempt");
+                Ok(())
+            } else {
+                Err(first)
+            }
+        }
+    }
+}
+pub fn run_c16_continuation(ctx: &mut Ctx) {
+    let t = ctx.tier;
+    let saved = ctx.workers;
+    ctx.workers = 8;
+    run_prop(
+        ctx,
+        "game_continuation_vs_fresh_engine",
+        || (rep_spec_strategy(), any::<u16>(), any::<u8>()).prop_map(|(pos, slice, plies)| ContinuationCase { pos, slice, plies }),
+        t.pick(240, 3_000),
+        |c, st| {
+            st.sample(|| json!({"continuation": true, "start": rep_text(&c.pos).map(|x| x.0), "slice": c.slice, "plies": c.plies}));
+            continuation_case(c, st)
+        },
+        |c| json!({"continuation": true, "start": rep_text(&c.pos).map(|x| x.0), "slice": c.slice, "plies": c.plies}),
+    );
+    ctx.workers = saved;
+}
+
 pub fn replay_c16(case: &Value) -> CaseResult {
+    if case.get("continuation").is_some() {
+        let start = case.get("start").and_then(|x| x.as_str()).ok_or("no start")?;
+        // rebuild the case around the concrete start text
+        let p = position_from_text(start)?;
+        let slice = case.get("slice").and_then(|x| x.as_u64()).unwrap_or(0) as u16;
+        let plies = case.get("plies").and_then(|x| x.as_u64()).unwrap_or(0) as u8;
+        REPLAY_START.with(|r| *r.borrow_mut() = Some((start.to_string(), p)));
+        let c = ContinuationCase { pos: RepSpec { walk: WalkRecipe { start: Start::Corpus(0), choices: vec![] }, cycles: 0, form: 0 }, slice, plies };
+        let r = continuation_case(&c, &mut Stats::new());
+        REPLAY_START.with(|r| *r.borrow_mut() = None);
+        return r;
+    }
     let prefix: Vec<String> = case.get("prefix").and_then(|x| x.as_array()).map(|a| a.iter().filter_map(|v| v.as_str().map(|s| s.to_string())).collect()).unwrap_or_default();
     let ptext = case.get("probe").and_then(|x| x.as_str()).ok_or("no probe")?;
     let slice = case.get("slice").and_then(|x| x.as_u64()).unwrap_or(60) as u16;
+    let settle = case.get("settle").and_then(|x| x.as_bool()).unwrap_or(true);
     let p = position_from_text(ptext)?;
     let mut fresh = Engine::spawn()?;
     fresh.handshake()?;
@@ -1260,9 +1380,13 @@ pub fn replay_c16(case: &Value) -> CaseResult {
         }
     }
     e.isready(Duration::from_secs(5))?;
-    e.settle(60);
+    if settle {
+        e.settle(60);
+    }
     let s1 = run_probe(&mut e, ptext, &p, slice)?;
-    e.settle(40);
+    if settle {
+        e.settle(40);
+    }
     let s2 = run_probe(&mut e, ptext, &p, slice)?;
     for s in [&s1, &s2] {
         if s.zero != f.zero {
@@ -1299,6 +1423,7 @@ fn junk_line() -> impl Strategy<Value = String> {
         1 => Just("ponderhit".to_string()),
         1 => Just("debug on".to_string()),
         1 => Just("Position startpos".to_string()),
+        2 => (prop_oneof![Just("go"), Just("quit"), Just("isready"), Just("position"), Just("uci"), Just("setoption"), Just("ucinewgame")], "[a-z]{1,6}", "( [a-z0-9]{1,6}){0,3}").prop_map(|(c, suffix, rest)| format!("{}{}{}", c, suffix, rest)),
         1 => Just("GO".to_string()),
         1 => "[a-z]{200,600}",
         1 => "\\PC{1,12}".prop_map(|s| s.replace(['\n', '\r'], " ")),
@@ -1430,18 +1555,31 @@ pub fn c17_core(ptext: &str, p: &Pos, c: &C17Case, st: &mut Stats) -> CaseResult
             e.close_stdin();
             limit = 1000;
         }
-        _ => {
+        6 => {
             e.send_raw(b"isready\n  \t ");
+            e.close_stdin();
+            limit = 1000;
+        }
+        _ => {
+            // the last command arrives without a line terminator: it is still a complete command
+            e.drain();
+            e.send_raw(b"isready");
             e.close_stdin();
             limit = 1000;
         }
     }
     let status = e.wait_exit(Duration::from_millis(limit + 1500));
     let took = t_end.elapsed().as_millis() as u64;
-    let name = ["quit_when_idle", "quit_right_after_go", "eof_when_idle", "eof_right_after_go", "eof_before_uci", "eof_after_blank_line", "eof_after_unterminated_fragment"][c.ending as usize % 7];
+    let name = ["quit_when_idle", "quit_right_after_go", "eof_when_idle", "eof_right_after_go", "eof_before_uci", "eof_after_blank_line", "eof_after_unterminated_fragment", "eof_after_unterminated_command"][c.ending as usize % 8];
     st.label(&format!("ending_{}", name));
     if status.is_none() {
         return Err(format!("ending `{}`: the process is still running {} ms later (limit {} ms + 1.5 s grace){}", name, took, limit, if c.ending >= 2 { " - standard input is closed, so it can only be spinning" } else { "" }));
+    }
+    if c.ending == 7 {
+        let (lines, _) = e.read_until(|_| false, Duration::from_millis(200));
+        if !lines.iter().any(|l| l.1 == "readyok") {
+            return Err("`isready` sent as the last line without a line terminator, then end of input: no `readyok` was printed before the process ended".into());
+        }
     }
     if c.ending == 3 {
         // the outstanding go must still have been answered before the exit
@@ -1466,7 +1604,7 @@ pub fn run_c17(ctx: &mut Ctx) {
     run_prop(
         ctx,
         "ignorable_input_and_lifecycle_sessions",
-        || (pos_spec_strategy(), proptest::collection::vec((any::<u8>(), junk_line()), 0..10), prop_oneof![2 => Just(0u8), 2 => Just(1u8), 3 => Just(2u8), 3 => Just(3u8), 1 => Just(4u8), 3 => Just(5u8), 2 => Just(6u8)], any::<u16>(), any::<u8>()).prop_map(|(pos, junk, ending, slice, go_noise)| C17Case { pos, junk, ending, slice, go_noise }),
+        || (pos_spec_strategy(), proptest::collection::vec((any::<u8>(), junk_line()), 0..10), prop_oneof![2 => Just(0u8), 2 => Just(1u8), 3 => Just(2u8), 3 => Just(3u8), 1 => Just(4u8), 3 => Just(5u8), 2 => Just(6u8), 3 => Just(7u8)], any::<u16>(), any::<u8>()).prop_map(|(pos, junk, ending, slice, go_noise)| C17Case { pos, junk, ending, slice, go_noise }),
         t.pick(650, 5_000),
         |c, st| {
             st.sample(|| c17_json(c));
